@@ -570,6 +570,15 @@ def r7_hash_order(ctx):
     funcs = list(R7_FUNCS)
     if ctx.thorough:
         funcs += [(SEQ, "SequentialCB._results"), (SEQ, "RejectionCB.evaluate"), (RES, "TransactionDecode.filter")]
+    # learners run inside the evaluation of a triple: a hash-ordered feature / term list makes a learner's rows depend on the worker's string-hash seed
+    from ..model import qualname as _qn
+    for rel_, mod_ in sorted(ctx.model.modules.items()):
+        if rel_.startswith("coba/learners/"):
+            for f_ in ast.walk(mod_.tree):
+                if isinstance(f_, ast.FunctionDef) and isinstance(getattr(f_, "_parent", None) or ast.Module, type) is False:
+                    q_ = _qn(f_)
+                    if ctx.model.has_func(rel_, q_) and (rel_, q_) not in funcs:
+                        funcs.append((rel_, q_))
     n = 0
     for rel, qual in funcs:
         fn = ctx.fn(rel, qual)
@@ -628,6 +637,9 @@ def r8_shared_objects(ctx):
 
 
 CONTROLS = [
+    ("vw arguments in hash order", "coba/learners/vowpal.py", M.replace_expr("make_args", "sorted(ignore_linear)", "ignore_linear"), "C01.R7"),
+    ("LinUCB terms in hash order", "coba/learners/linucb.py", M.replace_expr("LinUCBLearner._initialize", "list(dict.fromkeys(filter(None, [f.replace('x', '') if isinstance(f, str) else f for f in self._X])))",
+        "list(set(filter(None, [f.replace('x', '') if isinstance(f, str) else f for f in self._X])))"), "C01.R7"),
     ("RejectionCB keeps its generator", SEQ, M.insert_after("RejectionCB.__init__", M.text_has("self._seed"), "self._rng = CobaRandom(seed)"), "C01.R8"),
     ("copy flag by (env,lrn) pairs", PROC, M.replace_expr("MakeTasks.read", "Counter([l for _, l, _ in self._triples])", "Counter([l for _, l in set(((e, l) for e, l, _ in self._triples))])"), "C01.R8"),
     ("delete seed before run", EXP, M.insert_before("Experiment.run", M.text_has("CobaContext.logger.log('Experiment Started')"),
